@@ -237,6 +237,43 @@ def run_valid(case):
     return r
 
 
+def run_valid_large(case):
+    """Valid models with several hundred nodes (node ids, pattern tags and signer ids beyond one octet): what the compiler
+    produces is accepted - directly, and after save() / load() - and answers queries."""
+    r = Result()
+    n, width = case['n_rules'], case['width']
+    rules = []
+    for i in range(n):
+        items = [{'lit': f'p{i}'}] + [{'pat': '_'} if (i + j) % 3 else {'pat': f'x{j}'} for j in range(width)]
+        rules.append({'id': f'#r{i}', 'name': items, 'cons': [], 'sign': [f'#r{i + 1}'] if i + 1 < n and i % 2 == 0 else []})
+    sch = {'rules': rules}
+    text = L.render(sch, case.get('style', 0))
+    try:
+        model, ck = _build(text, {})
+    except Exception as e:
+        return r.bad(f'C13/valid-large/refused/{type(e).__name__}', f'{e!r} ({n} rules x {width} patterns)')
+    try:
+        ck2 = Checker.load(ck.save(), {})
+    except Exception as e:
+        return r.bad(f'C13/valid-large/load-refused/{type(e).__name__}', f'{e!r} ({n} rules x {width} patterns, {len(model.nodes)} nodes)')
+    for i in case['probe']:
+        i = i % (n - 1) // 2 * 2
+        pkt = [L.comp_of(f'p{i}')] + [L.comp_of(f'v{j}') for j in range(width)]
+        key = [L.comp_of(f'p{i + 1}')] + [L.comp_of(f'v{j}') for j in range(width)]
+        for label, c in (('direct', ck), ('loaded', ck2)):
+            try:
+                with LineBudget(2_000_000):
+                    ok = bool(c.check(pkt, key))
+                    bad = bool(c.check(key, pkt))
+            except Exception as e:
+                return r.bad(f'C13/valid-large/query-raised/{type(e).__name__}', repr(e)[:200])
+            if not ok or bad:
+                return r.bad(f'C13/valid-large/{label}/wrong-answer', f'rule {i}: allowed={ok} reverse={bad}')
+    r.key = (n, width, len(model.nodes) > 256)
+    r.classes = ('valid-large', f'nodes>{min(len(model.nodes) // 128 * 128, 512)}')
+    return r
+
+
 def _query(r, tag, ck, sch, text):
     """Every query on an accepted model terminates (line budget) and does not fail internally."""
     words = G.name_alphabet(sch)
@@ -468,5 +505,9 @@ SUBCHECKS = {
                                                                                         'style': st.integers(0, 5)}),
                                 examples={'quick': 150, 'thorough': 3000},
                                 note='hand-shaped well-formed families (see C12 schemas-templated): they must compile, load and answer'),
+    'valid-large': SubCheck(run_valid_large, strategy=lambda tier: st.fixed_dictionaries({
+        'n_rules': st.integers(70, 150), 'width': st.integers(1, 4), 'style': st.integers(0, 5),
+        'probe': st.lists(st.integers(0, 200), min_size=2, max_size=5)}), examples={'quick': 24, 'thorough': 400},
+        note='70..150 rules: node ids / tags beyond one octet'),
     'corrupt': SubCheck(run_corrupt, strategy=lambda tier: _case(True), examples={'quick': 80, 'thorough': 6000}),
 }
